@@ -32,6 +32,8 @@ type Program struct {
 	funcIDs    map[*ssa.Function]int
 	addrTaken  []*ssa.Function
 	addrDone   bool
+	mapEntries   map[*ssa.Global][]mapEntry
+	mapEntriesOK map[*ssa.Global]bool
 	bvTypes    map[types.Object]int
 	globalLens map[*ssa.Global]int64
 	mapConst   map[*ssa.Global]bool
@@ -272,6 +274,128 @@ func (p *Program) GlobalInitString(g *ssa.Global) (string, bool) {
 
 // GlobalMapConst: the global map is filled only by the package initialiser (no MapUpdate or store elsewhere),
 // so a lookup is a pure function of the key.
+// constDesc describes a compile-time constant key or value of a map literal: a constant, or a struct of them.
+type constDesc struct {
+	cst    *ssa.Const
+	fields []*constDesc
+	t      types.Type
+}
+
+type mapEntry struct{ key, val *constDesc }
+
+// GlobalMapEntries returns the entries of an init-only package-level map whose literal has only constant (or
+// struct-of-constant) keys and values; ok=false if the literal has any other shape.
+func (p *Program) GlobalMapEntries(g *ssa.Global) ([]mapEntry, bool) {
+	if !p.GlobalMapConst(g) {
+		return nil, false
+	}
+	p.mu.Lock()
+	defer p.mu.Unlock()
+	if p.mapEntries == nil {
+		p.mapEntries = map[*ssa.Global][]mapEntry{}
+		p.mapEntriesOK = map[*ssa.Global]bool{}
+	}
+	if ok, done := p.mapEntriesOK[g]; done {
+		return p.mapEntries[g], ok
+	}
+	p.mapEntriesOK[g] = false
+	initFn := g.Pkg.Func("init")
+	if initFn == nil {
+		return nil, false
+	}
+	// the map value stored into g, and its updates
+	var mk *ssa.MakeMap
+	nstores := 0
+	for _, b := range initFn.Blocks {
+		for _, in := range b.Instrs {
+			if st, ok := in.(*ssa.Store); ok && st.Addr == g {
+				nstores++
+				mk, _ = st.Val.(*ssa.MakeMap)
+			}
+		}
+	}
+	if nstores != 1 || mk == nil {
+		return nil, false
+	}
+	// stores into the fields of composite-literal temporaries
+	fieldStores := map[*ssa.Alloc]map[int]ssa.Value{}
+	for _, b := range initFn.Blocks {
+		for _, in := range b.Instrs {
+			if st, ok := in.(*ssa.Store); ok {
+				if fa, ok := st.Addr.(*ssa.FieldAddr); ok {
+					if al, ok := fa.X.(*ssa.Alloc); ok {
+						if fieldStores[al] == nil {
+							fieldStores[al] = map[int]ssa.Value{}
+						}
+						if _, dup := fieldStores[al][fa.Field]; dup {
+							fieldStores[al][-1] = nil // stored twice: not a plain literal
+						}
+						fieldStores[al][fa.Field] = st.Val
+					}
+				}
+			}
+		}
+	}
+	var desc func(v ssa.Value, depth int) *constDesc
+	desc = func(v ssa.Value, depth int) *constDesc {
+		if depth > 3 {
+			return nil
+		}
+		switch x := v.(type) {
+		case *ssa.Const:
+			return &constDesc{cst: x, t: x.Type()}
+		case *ssa.UnOp:
+			al, ok := x.X.(*ssa.Alloc)
+			if !ok || x.Op != token.MUL {
+				return nil
+			}
+			stt, ok := al.Type().(*types.Pointer).Elem().Underlying().(*types.Struct)
+			if !ok {
+				return nil
+			}
+			fs := fieldStores[al]
+			if _, twice := fs[-1]; twice {
+				return nil
+			}
+			d := &constDesc{t: al.Type().(*types.Pointer).Elem()}
+			for i := 0; i < stt.NumFields(); i++ {
+				fv, ok := fs[i]
+				if !ok {
+					d.fields = append(d.fields, &constDesc{t: stt.Field(i).Type()}) // zero value
+					continue
+				}
+				fd := desc(fv, depth+1)
+				if fd == nil {
+					return nil
+				}
+				d.fields = append(d.fields, fd)
+			}
+			return d
+		}
+		return nil
+	}
+	var out []mapEntry
+	for _, b := range initFn.Blocks {
+		for _, in := range b.Instrs {
+			mu, ok := in.(*ssa.MapUpdate)
+			if !ok || mu.Map != mk {
+				continue
+			}
+			k, v := desc(mu.Key, 0), desc(mu.Value, 0)
+			if k == nil || v == nil {
+				return nil, false
+			}
+			out = append(out, mapEntry{k, v})
+		}
+	}
+	if len(out) == 0 || len(out) > 200 {
+		return nil, false
+	}
+	p.mapEntries[g] = out
+	p.mapEntriesOK[g] = true
+	return out, true
+}
+
 func (p *Program) GlobalMapConst(g *ssa.Global) bool {
 	p.mu.Lock()
 	defer p.mu.Unlock()
@@ -400,6 +524,11 @@ func (p *Program) FindPred(name string) *PredDecl {
 }
 
 func (p *Program) LookupType(from *types.Package, name string) types.Type {
+	if obj := types.Universe.Lookup(name); obj != nil {
+		if tn, ok := obj.(*types.TypeName); ok {
+			return tn.Type()
+		}
+	}
 	pkgName, tname := "", name
 	if i := strings.LastIndex(name, "."); i >= 0 {
 		pkgName, tname = name[:i], name[i+1:]
@@ -523,6 +652,9 @@ func (p *Program) KeyInfo(ex *Exec, name string) *HeapKey {
 	case 'G':
 		return ex.keyGlobal(d.global)
 	case 'X':
+		if name == "X:modes" {
+			return ex.modesKey()
+		}
 		return ex.penKey()
 	case 'Z':
 		env := &CEnv{ex: ex, pkg: p.TypesPkg(d.ghost.PkgPath)}
@@ -765,6 +897,10 @@ func (p *Program) externMods(fm *funcMods, fc *FuncContract, pc *PkgContracts, a
 			}
 		}
 	}
+	for _, lc := range fc.Logs {
+		fm.ms.keys[p.noteKey("L:"+lc.Name, keyDesc{kind: 'L'})] = true
+		fm.ms.keys[p.noteKey("N:"+lc.Name, keyDesc{kind: 'L'})] = true
+	}
 	for _, cl := range fc.Clauses {
 		switch cl.Kind {
 		case "modifies":
@@ -836,6 +972,7 @@ func (p *Program) callMods(fm *funcMods, cc *ssa.CallCommon, paramIdx map[*ssa.P
 	}
 	if k, _ := sinkKind(callee); k == "write" || k == "printf" {
 		fm.ms.keys[p.noteKey("X:pen", keyDesc{kind: 'X'})] = true
+		fm.ms.keys[p.noteKey("X:modes", keyDesc{kind: 'X'})] = true
 	}
 	if attr, fc, pc := p.externDecl(externKey(callee)); attr || fc != nil {
 		p.externMods(fm, fc, pc, cc.Args)
